@@ -21,8 +21,8 @@ EXPLANATION = (
 ASSUMPTIONS = [
     "the automaton's out_dict / in_dict views are coherent with its graph_dict (property C09)",
     "parse_simple representations (returned words are plain concatenations of labels)",
-    "memo dictionaries are reused only with the same automaton, representation and options (the key is (length, state)); "
-    "reuse across different options is probed separately (known finding D12)",
+    "memo dictionaries are reused only with the same automaton and representation (the repaired code records the options "
+    "in the dict and refuses a mismatch)",
 ]
 
 
@@ -353,7 +353,7 @@ def gen_acc(rng, n):
             k = nstates(j)
             calls = all_option_calls(j, pick_L(rng, j, 120), rng.randrange(k))
         else:
-            calls = rand_calls(rng, j)
+            calls = rand_calls(rng, j, same_options=rng.random() < 0.7)
         yield {"aut": j, "spec": spec, "calls": calls}
 
 
@@ -641,8 +641,19 @@ def run_memo(inp):
     shared = do_calls(rep, A, inp["calls"])
     fresh = do_calls(rep, A, [dict(c, keep=False) for c in inp["calls"]])
     bad = None
+    recorded = None          # the options the shared dict was filled under
     for i, (s, f, c) in enumerate(zip(shared, fresh, inp["calls"])):
+        if not c.get("keep"):
+            recorded = None
+        opts = (c["end"] is None, c["maxlen"], c["with_words"], c["edge_words"])
         es, ef = H.exc_name(s), H.exc_name(f)
+        if recorded is not None and recorded != opts:
+            # a dict filled under other options must not be used: the call has to refuse (ValueError)
+            if es != "ValueError":
+                bad = i
+                break
+            continue
+        recorded = opts
         if es or ef:
             if es != ef:
                 bad = i
@@ -662,7 +673,8 @@ def judge_memo(inp, obs, lr):
         c0 = inp["calls"][0]
         differs = any((c["maxlen"], c["with_words"], c["edge_words"]) != (c0["maxlen"], c0["with_words"], c0["edge_words"])
                       for c in inp["calls"][: obs["bad"] + 1])
-        return {"expected": "a call with a reused precomputed dict returns what a call with a fresh dict returns",
+        return {"expected": "a call with a reused precomputed dict returns what a call with a fresh dict returns, or refuses "
+                            "(ValueError) a dict that was filled under different options",
                 "observed": {"first_bad_call": obs["bad"]},
                 "tags": {"memo_reuse": "different_options" if differs else "same_options"}}
     return None
